@@ -29,10 +29,50 @@ const lineAlphabet = "abcdef"
 // genLines returns N lines; line i depends only on (Seed, Shape, i), so that
 // shrinking N keeps a prefix. Every line ends in a unique " #<i>" id; queries
 // never contain digits or '#'.
+// hostile line material (C14): wide, combining, control, invalid, empty, very long
+var hostileAtoms = []string{"日本語", "한국어", "e\u0301", "a\u0308\u0323", "\t", "\x01", "\x7f", "\xff\xfe", "\xc3", "👍", "👨\u200d👩\u200d👧", "\u200b",
+	"\x1b[31m", "\x1b", "\r", "  ", "ｆｕｌｌ", "ﬁ", "\u0e01\u0e34\u0e19", "\u202e", "abc", "x", "/", "-", "#"}
+
+func genHostileLine(r *zsim.Rng, shape int, i int) string {
+	var b strings.Builder
+	n := r.Intn(8)
+	switch shape % 8 {
+	case 5:
+		if r.Chance(1, 5) {
+			return ""
+		}
+	case 6:
+		if r.Chance(1, 6) {
+			n = r.Range(200, 3000)
+			if r.Chance(1, 10) {
+				n = r.Range(10000, 30000)
+			}
+		}
+	}
+	for k := 0; k < n; k++ {
+		if shape%8 == 4 || r.Chance(1, 2) {
+			b.WriteString(hostileAtoms[r.Intn(len(hostileAtoms))])
+		} else {
+			b.WriteByte(lineAlphabet[r.Intn(len(lineAlphabet))])
+		}
+		if r.Chance(1, 5) {
+			b.WriteByte(' ')
+		}
+	}
+	if shape%8 == 7 && r.Chance(1, 4) {
+		b.WriteString("\nsecond line\nthird") // multi-line item (only under --read0)
+	}
+	return b.String()
+}
+
 func genLines(s lineSpec) []string {
 	out := make([]string, 0, s.N)
 	for i := 0; i < s.N; i++ {
 		r := zsim.NewRng(zsim.Mix(s.Seed, uint64(i)))
+		if s.Shape%8 >= 4 {
+			out = append(out, genHostileLine(r, s.Shape, i))
+			continue
+		}
 		var b strings.Builder
 		words := 1 + r.Intn(4)
 		switch s.Shape % 4 {
